@@ -373,8 +373,25 @@ func c16Copy(c *Check, id string) {
 			c.Report(!ReachWithout(next, next, s), id, "COPY-COVER/metadata", cp, s.Pos(), "Metadata.Set", "every metadata entry of the source is written, key and value, into the copy's own map")
 		}
 	}
-	c.Floor(id, "Metadata.Set(k, v) on the copy inside the range", nset, 1)
-	// MapUpdate idiom (msg.Metadata[k] = v) is accepted as well
+	// the idiom msg.Metadata[k] = v is accepted as well
+	AllInstrs(cp, func(in ssa.Instruction) {
+		mu, ok := in.(*ssa.MapUpdate)
+		if !ok {
+			return
+		}
+		okK := AllOrigins(mu.Key, func(v ssa.Value) bool { e, ok := v.(*ssa.Extract); return ok && e.Tuple == ssa.Value(next) && e.Index == 1 })
+		okV := AllOrigins(mu.Value, func(v ssa.Value) bool { e, ok := v.(*ssa.Extract); return ok && e.Tuple == ssa.Value(next) && e.Index == 2 })
+		okR := false
+		if u, isU := firstOrigin(mu.Map).(*ssa.UnOp); isU {
+			rf, base := FieldOf(u.X)
+			okR = rf == metaF && base != nil && sameValue(base, CallValue(n))
+		}
+		if okK && okV && okR {
+			nset++
+			c.Report(!ReachWithout(next, next, in), id, "COPY-COVER/metadata", cp, in.Pos(), "metadata[k] = v", "every metadata entry of the source is written, key and value, into the copy's own map")
+		}
+	})
+	c.Floor(id, "write of (k, v) into the copy's metadata inside the range", nset, 1)
 }
 
 // ---------------------------------------------------------------------------
